@@ -4,7 +4,7 @@
 (* under the hook mutex), are replayed through the effects Eff_X of the system   *)
 (* specification; every precondition of Pre_X that does not hold at an event is  *)
 (* collected with its name.  A "reset" line starts the log of the next gateway   *)
-(* process.  Lines: [ev, pt, u (tunnel object), cid, role, found, ok]            *)
+(* process.  Lines: [ev, pt, u (tunnel object), cid, role, found, ok, usr, nreg]            *)
 EXTENDS Lifecycle, Json, TLCExt, IOUtils
 TTraceFile == IF "TRACE" \in DOMAIN IOEnv THEN IOEnv.TRACE ELSE "trace.ndjson"
 TraceLog == ndJsonDeserialize(TTraceFile)
@@ -33,7 +33,7 @@ PreOf(e, u) ==
     [] e.pt = "unreg.end" -> Pre_UnregEnd(u)
     [] e.pt = "tr.reading" -> Pre_Reading(u)
     [] e.pt = "tr.read" -> Pre_Read(u)
-    [] e.pt = "proc.recv" -> Pre_Recv(u, e.t)
+    [] e.pt = "proc.recv" -> Pre_RecvAs(u, e.t, e.usr)
     [] e.pt = "proc.step" -> Pre_Step(u)
     [] e.pt = "proc.exit" -> Pre_LoopExit(u)
     [] e.pt = "proc.dial" -> Pre_Dial(u)
@@ -46,7 +46,7 @@ PreOf(e, u) ==
     [] OTHER -> {"G_UnknownEvent"}
 
 EffOf(e, u) ==
-  CASE e.pt = "gw.enter" -> Eff_Enter(u, e.cid)
+  CASE e.pt = "gw.enter" -> Eff_EnterAs(u, e.cid, e.found, e.usr)
     [] ~Known(u) -> Fresh(e.cid)
     [] e.pt = "gw.exit" -> Eff_Exit(u)
     [] e.pt = "ws.open" -> Eff_WsOpen(u)
@@ -61,7 +61,7 @@ EffOf(e, u) ==
     [] e.pt = "unreg.end" -> Eff_UnregEnd(u)
     [] e.pt = "tr.reading" -> Eff_Reading(u)
     [] e.pt = "tr.read" -> Eff_Read(u)
-    [] e.pt = "proc.recv" -> Eff_Recv(u, e.t)
+    [] e.pt = "proc.recv" -> Eff_RecvAs(u, e.t, e.usr)
     [] e.pt = "proc.step" -> Eff_Step(u)
     [] e.pt = "proc.exit" -> Eff_LoopExit(u)
     [] e.pt = "proc.dial" -> Eff_Dial(u)
@@ -84,10 +84,13 @@ TReset == /\ l <= Len(TraceLog) /\ Line.ev = "reset"
 THook == /\ l <= Len(TraceLog) /\ Line.ev = "hk"
          /\ LET e == Line
                 u == e.u
+                st2 == Put(u, EffOf(e, u))
+                \* the size the registry reports after RegisterTunnel / RemoveTunnel is the number of tunnels being served
                 bad == PreOf(e, u) \cup (IF e.pan THEN {"G_C10_NoPanic"} ELSE {})
+                       \cup (IF e.pt \in {"reg.end", "unreg.end"} /\ e.nreg >= 0 /\ e.nreg # RegCount(st2) THEN {"G_C11_RegistryHoldsExactlyTheServedTunnels"} ELSE {})
             IN /\ viol' = viol \cup {<<l, g, e.pt, e.role>> : g \in bad}
                /\ cover' = cover \cup {<<e.pt, e.role>>}
-               /\ st' = Put(u, EffOf(e, u))
+               /\ st' = st2
                /\ regBusy' = BusyAfter(e, u)
          /\ l' = l + 1
 TNext == TReset \/ THook
